@@ -252,6 +252,36 @@ impl<F: Family> Program<F> {
     }
 }
 
+/// The same program preceded by `k` empty threads that main spawns and joins one after the other
+/// (no branching: main is blocked while each of them runs): the program's own threads get task ids
+/// above `k`.  With k = 16 they lie beyond the inline capacity of the runtime's per-task tables
+/// (`DEFAULT_INLINE_TASKS`: task list, vector clocks, the RwLock reader set).  Only for families
+/// whose operations and configuration do not mention thread indices.
+pub fn with_high_ids<F: Family>(p: &Program<F>, k: usize) -> Program<F> {
+    let shift = |c: usize| if c == 0 { 0 } else { c + k };
+    let map = |o: &GOp<F::Op>| -> GOp<F::Op> {
+        match o {
+            GOp::Spawn(c) => GOp::Spawn(shift(*c)),
+            GOp::Join(c) => GOp::Join(shift(*c)),
+            GOp::Abort(c) => GOp::Abort(shift(*c)),
+            GOp::Detach(c) => GOp::Detach(shift(*c)),
+            GOp::IsFinished(c) => GOp::IsFinished(shift(*c)),
+            GOp::ScopeBegin(cs) => GOp::ScopeBegin(cs.iter().map(|c| shift(*c)).collect()),
+            other => other.clone(),
+        }
+    };
+    let mut main: Vec<GOp<F::Op>> = Vec::new();
+    for i in 1..=k {
+        main.push(GOp::Spawn(i));
+        main.push(GOp::Join(i));
+    }
+    main.extend(p.threads[0].iter().map(map));
+    let mut threads = vec![main];
+    threads.extend((0..k).map(|_| Vec::new()));
+    threads.extend(p.threads[1..].iter().map(|t| t.iter().map(map).collect::<Vec<_>>()));
+    Program { cfg: p.cfg.clone(), threads }
+}
+
 // ---------------------------------------------------------------------------------------------
 // Implementation interpreter
 // ---------------------------------------------------------------------------------------------
